@@ -186,6 +186,7 @@ fn tables(run: &Arc<Run>, v: Variant) {
 
 fn main() {
     let run = Run::new("C01", "model_checking");
+    vp_net::maybe_replay(&run);
     std::thread::scope(|sc| {
         for v in [Variant::V6T, Variant::V6N, Variant::V7] {
             let run = &run;
